@@ -65,7 +65,9 @@ def run(tier, scratch, record=False):
     cov = dict(
         rule="%d (layout, document) pairs emitted by TLC (layouts of 1..2 fields from 18 kinds incl. arrays with element sizes "
              "1,2,3,4,5,8,12,16,24,64; per field: absent / null / short / exact / long / wrong kind) x 3 Go realisations x {Unmarshal, "
-             "Decoder, truncated document}; plus a checkptr-build pass over %s; non-trivial = distinct pairs" % (
+             "Decoder, truncated document}; plus a checkptr-build pass over %s; plus two-call histories (part earlier-destination: 4 slice types "
+             "with reference elements, first call valid / truncated / cut after each element / bad separator, both entry points: the second "
+             "call's destination B must not change or share anything reachable from the first call's destination A); non-trivial = distinct pairs" % (
                  len(cases), "every 7th pair" if tier == "quick" else "all pairs"),
         exhaustive=True, traces_validated_against_impl=len(cases), checkptr_calls=out2.counters.get("calls", 0))
     f = vlib.Findings(PROP)
